@@ -181,7 +181,13 @@ def _tuples_for(name, ds, rng, n_tuples=None):
     n = n_tuples or max(20, 4 * d)
     # similar / dissimilar pairs in varying proportion (>= 3 of each)
     frac = [0.5, 0.25, 0.75, 0.5][int(rng.randint(4))]
-    n_pos = int(min(max(3, round(frac * n)), n - 3))
+    if n >= 6:
+      n_pos = int(min(max(3, round(frac * n)), n - 3))
+    elif n >= 2:
+      # tiny pair sets: at least one pair of each kind
+      n_pos = int(min(max(1, round(frac * n)), n - 1))
+    else:
+      n_pos = int(rng.randint(2))      # a single pair, of either kind
     return D.pair_indices(rng, y, n_pos, n - n_pos)
   if kind == 'triplets':
     n = n_tuples or max(30, 5 * d)
@@ -259,7 +265,14 @@ def build(name, ds, rng, params=None, seed=0, use_fast=True, n_tuples=None,
     diffs = Xf[idx[:, 0]] - Xf[idx[:, 1]]
     M0 = harness_prior(p.get('prior', 'identity'), Xf[idx].reshape(-1, d), d,
                        p['random_state'])
-    bmax = sdml_bmax(np.linalg.inv(M0), diffs, np.asarray(lab, float))
+    w0 = np.linalg.eigvalsh((M0 + M0.T) / 2)
+    if w0.min() <= 1e-10 * max(w0.max(), 1e-300):
+      # (tiny pair sets: the covariance prior is singular; SDML documents
+      # that it refuses such a prior - the caller decides what to make of it)
+      meta['prior_singular'] = True
+      bmax = 1.0
+    else:
+      bmax = sdml_bmax(np.linalg.inv(M0), diffs, np.asarray(lab, float))
     p['balance_param'] = float(frac * min(0.5, 0.5 * bmax))
     meta['bmax'] = float(bmax)
   est = cls(name)(**p)
